@@ -552,7 +552,7 @@ func (e *discEnv) close() {
 
 // keepalive completes one genuine ping/pong exchange, which resets the transport's counter of
 // consecutive time-outs (at 32 it would start an NTP query over the real network).
-func (e *discEnv) keepalive() {
+func (e *discEnv) keepalive() bool {
 	res := make(chan error, 1)
 	go func() { res <- e.u.Ping(attID, fromAddr) }()
 	synctest.Wait()
@@ -562,15 +562,27 @@ func (e *discEnv) keepalive() {
 	}
 	c := discCase{Dialect: map[bool]int{false: dAqua, true: dCompat}[e.netcompat], Base: pongBase, Kind: "valid"}
 	buf, _, _ := c.build(out[0].b[:32])
-	if err := e.u.HandlePacket(fromAddr, buf); err != nil {
-		ev.Broken("keepalive: genuine pong rejected: %v", err)
+	herr := func() (err error) {
+		defer func() {
+			if recover() != nil {
+				err = errors.New("panic")
+			}
+		}()
+		return e.u.HandlePacket(fromAddr, buf)
+	}()
+	if herr != nil {
+		// the code under test does not complete a genuine exchange (the cases report that); the caller
+		// falls back to a fresh node instead
+		time.Sleep(2 * discover.VerifRespTimeout)
+		synctest.Wait()
+		<-res
+		return false
 	}
-	if err := <-res; err != nil {
-		ev.Broken("keepalive: ping not completed by its pong: %v", err)
-	}
+	perr := <-res
 	synctest.Wait()
 	e.pipe.drain()
 	e.timeouts = 0
+	return perr == nil
 }
 
 type handleOut struct {
@@ -887,8 +899,9 @@ func runDiscGroup(t *testing.T, cases []discCase, each func(c discCase, fs []fin
 				e.close()
 				e = nil
 			}
-			if e != nil && e.timeouts >= 24 {
-				e.keepalive()
+			if e != nil && e.timeouts >= 24 && !e.keepalive() {
+				e.close()
+				e = nil
 			}
 			if e == nil {
 				e = newDiscEnv(c.Dialect == dCompat)
